@@ -70,6 +70,21 @@ def safe_judge(sub, case):
         return sub.judge(case)
     except LibRaised as e:
         return Verdict(ok=False, msg=str(e), nontrivial=True, classes=["lib-raised"])
+    except _Fail:
+        raise
+    except Exception as e:  # noqa: BLE001
+        # an exception that originates inside the library (a gbasis frame is innermost on the stack) on an input of the
+        # property's domain is a failure of the library; anything else is a defect of the harness and propagates (exit 2)
+        from vf.core import REPO
+
+        tb = e.__traceback__
+        last = None
+        while tb is not None:
+            last = tb.tb_frame.f_code.co_filename
+            tb = tb.tb_next
+        if last and os.path.realpath(last).startswith(os.path.join(os.path.realpath(REPO), "gbasis")):
+            return Verdict(ok=False, msg=f"library raised {type(e).__name__}: {e}", nontrivial=True, classes=["lib-raised"])
+        raise
 
 
 class _Fail(Exception):
